@@ -506,4 +506,112 @@ UNTIL_UNIT = Unit("C04.extract_until", UNTIL, until_setup, post=[Clause("C04.ext
                   invariants={(UNTIL, "while#1"): until_inv()}, before_stmt=until_before_stmt, allowed_raise=until_raise,
                   assumptions=["ghost fback_anc_u(x, n) is the n-th f_back ancestor (defining equations); a frame's f_back is None or a frame"])
 
-UNITS = [TF_UNIT, GTC_UNIT, STITCH_UNIT, SLICE_UNIT, LIMIT_UNIT, SINCE_UNIT, UNTIL_UNIT]
+# ------------------------------------------------------------------------------------------------ search through the other threads (C07)
+# `if not frames and inner_frame is None: for ident, inner_frame in sys._current_frames().items(): ...` - when the outer frame is not on
+# the calling thread's stack, the stacks of the OTHER threads are searched: the result is try_from(top frame) of the first thread in
+# the snapshot's order that is not the calling thread and whose walk finds the outer frame; the calling thread's own entry is never
+# walked; nothing happens when frames were found already or an inner frame was given.
+try_from_result = Function("C04.try_from_result", Val, Val)       # callee contract of try_from (unit C04.try_from): a list, function of the start frame
+
+
+def select_other_threads_block(fi):
+    for n in ast.walk(fi.node):
+        if isinstance(n, ast.If) and "sys._current_frames()" in ast.unparse(n) and "inner_frame is None" in ast.unparse(n.test):
+            return [n]
+    raise KeyError("contract anchor lost: other-threads search of unwrap_stackslice not found")
+
+
+def ot_setup(ex, p):
+    frames0 = sym_seq(p, "frames", "list")
+    inner = sym_any(p, "inner_frame")
+    p.pc.append(Or(Val.is_none(inner.t), is_kind(inner.t, "frame")))
+    snap_items = sym_seq(p, "current_frames_items", "list")
+    H0 = p.snap()
+    n = H0.length(snap_items.t)
+    p.pc.append(H0.lo_(snap_items.t) == 0)
+    def pair(pth, j):
+        e = H0.raw(snap_items.t, j)
+        return Implies(And(j >= 0, j < n), And(is_exact_kind(e, "tuple"), H0.length(e) == 2, H0.lo_(e) == 0, Val.a(e) >= 0,
+                                               Val.is_intv(H0.at(e, 0)), is_kind(H0.at(e, 1), "frame"), Val.a(H0.at(e, 1)) >= 0))
+    p.add_schema(snap_items.t, pair)
+    me = fresh_int("calling_thread_ident")
+    def m_current_frames(ex_, p_, args, kw, node):
+        return [("ok", p_, SV(fresh("frames_snapshot"), ty="framesnapshot"))]
+    def m_items(ex_, p_, args, kw, node):
+        return [("ok", p_, SV(snap_items.t, ty="list"))]
+    def m_get_ident(ex_, p_, args, kw, node):
+        return [("ok", p_, sv_int(me))]
+    def m_try_from(ex_, p_, args, kw, node):
+        r = try_from_result(args[0].t)
+        p_.pc += [is_exact_kind(r, "list"), Val.is_ref(r), p_.length(r) >= 0]
+        p_.ghost["walked"] = p_.ghost.get("walked", ()) + (args[0].t,)
+        return [("ok", p_, SV(r, ty="list"))]
+    ex.unit.bindings.update({"sys._current_frames": m_current_frames, "threading.get_ident": m_get_ident, "try_from": m_try_from})
+    ex.unit.methods[("framesnapshot", "items")] = m_items
+    p.env.update(frames=frames0, inner_frame=inner)
+    ex.unit_args = dict(frames0=frames0, inner0=inner, items=snap_items, H0=H0, me=me)
+    return ex.unit_args
+
+
+def ot_no_match(a, H0, j):
+    e = H0.at(a["items"].t, j)
+    return Or(Val.i(H0.at(e, 0)) == a["me"], H0.length(try_from_result(H0.at(e, 1))) == 0)
+
+
+def ot_inv():
+    def none_before(ctx, pth, j):
+        a = ctx.ex.unit_args
+        pth.read(a["items"].t, j, a["H0"])
+        return Implies(And(j >= 0, j < ctx.k), ot_no_match(a, a["H0"], j))
+    def qf(ctx):
+        return And(ctx.H.length(ctx.v("frames")) == 0, is_exact_kind(ctx.v("frames"), "list"))
+    def ghost_havoc(ctx):
+        ctx.p.ghost["walked"] = ()
+    def step(ctx):
+        # per iteration: the entry's frame is walked iff the entry belongs to ANOTHER thread - the calling thread's own entry never is
+        a = ctx.ex.unit_args
+        e = a["H0"].at(a["items"].t, ctx.k - 1)
+        w = ctx.p.ghost.get("walked", ())
+        if len(w) == 0:
+            return Val.i(a["H0"].at(e, 0)) == a["me"]
+        if len(w) == 1:
+            return And(Val.i(a["H0"].at(e, 0)) != a["me"], w[0] == a["H0"].at(e, 1))
+        return BoolVal(False)
+    return Inv("C07.other_threads.first_foreign_match_scan", qf=qf, header="sys._current_frames().items()", ghost_havoc=ghost_havoc, var_types={"frames": "list"},
+               steps=[("C07.other_threads.own_entry_never_walked", step)],
+               foralls=[(lambda p_: p_.env["$items"].t, none_before)])
+
+
+def ot_before_stmt(ex, n, p):
+    if isinstance(n, ast.For):
+        p.env["$items"] = ex.unit_args["items"]
+
+
+def ot_post(ctx):
+    a = ctx.ex.unit_args
+    H0 = a["H0"]
+    F = ctx.env["frames"].t
+    k = ctx.p.ghost.get("exit_k:for#1")
+    searched = And(H0.length(a["frames0"].t) == 0, Val.is_none(a["inner0"].t))
+    if k is None:
+        return And(Not(searched), F == a["frames0"].t, BoolVal(not ctx.p.ghost.get("walked")))
+    n = H0.length(a["items"].t)
+    jq = fresh_int("jq")
+    ctx.p.read(a["items"].t, jq, H0)
+    ctx.p.read(a["items"].t, k, H0)
+    e = H0.at(a["items"].t, k)
+    hit = And(k < n, Val.i(H0.at(e, 0)) != a["me"], F == try_from_result(H0.at(e, 1)), ctx.H.length(F) > 0)
+    return And(searched, Implies(And(jq >= 0, jq < k), ot_no_match(a, H0, jq)), Or(hit, And(k == n, ctx.H.length(F) == 0)))
+
+
+OTHER_THREADS_UNIT = Unit("C07.other_threads_search", US, ot_setup,
+                          post=[Clause("C07.other_threads.first_foreign_thread_whose_walk_finds_the_outer_frame", ot_post)],
+                          bindings=dict(EXTRACT_BINDINGS), methods=dict(STD_METHODS), known_classes=KNOWN, body_of=select_other_threads_block,
+                          invariants={(US, "for#1"): ot_inv()}, before_stmt=ot_before_stmt, allowed_raise=lambda ctx: BoolVal(False),
+                          assumptions=["sys._current_frames() is a snapshot mapping idents to top frames; its items() order is modelled as a list of pairs "
+                                       "; threading.get_ident() is the calling "
+                                       "thread's ident on every call; callee contract of try_from (unit C04.try_from): a list determined by its start frame",
+                                       "extraction: only this one `if` statement of unwrap_stackslice is executed here; the race with running threads is the "
+                                       "property's bounded part (c07_threads / c07_preempt)"])
+
+UNITS = [TF_UNIT, GTC_UNIT, STITCH_UNIT, SLICE_UNIT, LIMIT_UNIT, SINCE_UNIT, UNTIL_UNIT, OTHER_THREADS_UNIT]
